@@ -162,7 +162,7 @@ def model_obs(ans):
 
 
 MAXF = Fraction(2) ** 1024
-TINY = Fraction(1, 2 ** 1070)
+TINY = Fraction(1, 2 ** 1055)   # subnormal range: absolute instead of relative precision (x1000 included)
 
 
 def value_close(impl, exact, ulps=1):
